@@ -240,6 +240,23 @@ def d3_6(ctx):
         first = [n for n in f.body if isinstance(n, ast.Assign) and atom_name(n.targets[0]) == "current_group"]
         good = len(first) == 1 and src(first[0].value).replace(" ", "") == "grouped_requests[0]"
         ctx.check(good, ckey(fn, "first-group"), first[0] if first else f, "the first group is grouped_requests[0]", "the initial group is not the first registered group")
+        # every non-empty group becomes a packet (the first group stays empty when the first request alone exceeds the budget)
+        comps = [n for n in walk(f) if isinstance(n, ast.ListComp) and isinstance(n.elt, ast.Call) and call_name(n.elt) == "MultiServiceRequestPacket" and atom_name(n.generators[0].iter) == "grouped_requests"]
+        okp = False
+        whyp = "no packet list built from grouped_requests"
+        if len(comps) == 1:
+            gen = comps[0].generators[0]
+            gv = atom_name(gen.target)
+            filt = any(atom_name(c) == gv or src(c).replace(" ", "") in (f"len({gv})>0", f"len({gv})") for c in gen.ifs)
+            gate = None
+            p_ = getattr(comps[0], "_parent", None)
+            while p_ is not None and p_ is not f:
+                if isinstance(p_, ast.If) and "grouped_requests[" in src(p_.test):
+                    gate = p_
+                p_ = getattr(p_, "_parent", None)
+            okp = filt and gate is None and atom_name(comps[0].elt.args[1]) == gv
+            whyp = ("packets are only built when one particular group (`%s`) is non-empty: if the first request alone does not fit next to the overhead, the first group stays empty and every grouped request of the call is dropped" % src(gate.test)) if gate is not None else ("empty groups are not filtered out" if not filt else "group variable not passed to the packet")
+        ctx.check(okp, ckey(fn, "every-group-sent"), comps[0] if comps else f, "one multi-service packet per non-empty group", whyp)
         rets = [r for r in walk(f) if isinstance(r, ast.Return)]
         parts = src(rets[-1].value).replace(" ", "") if rets else ""
         ctx.check(len(rets) == 1 and "multi_requests+fragmented_requests" in parts, ckey(fn, "returns"), rets[-1] if rets else f, "returns the multi-service packets plus the fragmented (and bit-write) packets", "the builder does not return all packet lists")
@@ -266,6 +283,20 @@ def d3_7(ctx):
         in_h = any(isinstance(a, ast.ExceptHandler) for a in _anc(s))
         ok = (key, tagarg) in {("request.request_id", "request.tag"), ("req.request_id", "resp.tag"), ("req.request_id", "req.tag"), ("tag['request_id']", "tag['tag']")}
         ctx.check(ok, ckey(fn, f"store:{key}:{'handler' if in_h else 'normal'}:{tagarg}"), s, "result stored under the answering request's id with that request's tag", f"result stored under `{key}` with tag `{tagarg}`: results can be attributed to another request")
+    # per-service results come from the per-service replies whatever the outer status of the multi-service reply:
+    # on the multi branch every path reaches the loop over response.responses
+    g = ctx.cfg(f)
+    multi_t = [t for t in g.nodes if t.kind == "test" and isinstance(t.ast, ast.Compare) and attr_path(t.ast.left) == "request.type_" and ctx.folder.eval(t.ast.comparators[0], fn.module) == "multi" and not any(isinstance(a, ast.ExceptHandler) for a in _anc(t.ast))]
+    loops = [n for n in walk(f) if isinstance(n, ast.For) and attr_path(n.iter) == "response.responses"]
+    ok = False
+    if len(multi_t) == 1 and len(loops) == 1:
+        t = multi_t[0]
+        multi_branch = isinstance(t.ast.ops[0], ast.Eq)  # True branch when `== "multi"`, False branch when `!= "multi"`
+        start = [s_ for s_, lab in t.succ if lab is multi_branch]
+        ln = g.nodes_of(loops[0].iter) or g.nodes_of(loops[0])
+        outer = [n for n in g.nodes if n.kind == "test" and n.label == "for" and isinstance(n.ast, ast.For) and atom_name(n.ast.iter) == "requests"]
+        ok = bool(start) and bool(ln) and g.must_pass({ln[0]}, start=start[0], sinks=set(outer) | {g.exit, g.raise_exit}) is None
+    ctx.check(ok, ckey(fn, "per-service-always"), loops[0] if loops else f, "every reply to a multi-service packet is unpacked per service, whatever its outer status", "a path handles a multi-service reply without going through its per-service replies (e.g. when the outer status reports an embedded error): one failing service changes the outcome of the others")
     req_bind = [n for n in walk(f) if isinstance(n, ast.Assign) and atom_name(n.targets[0]) == "req" and attr_path(n.value) == "resp.request"]
     ctx.check(len(req_bind) == 1, ckey(fn, "sub-request"), f, "a sub-response is matched to its own request object", "sub-responses are no longer matched through resp.request")
     ret = [r for r in walk(f) if isinstance(r, ast.Return)]
